@@ -12,11 +12,6 @@ Definition witness_ops : list op :=
   map (fun k => OAdd (ex_node k)) (map N.of_nat (seq 0 16)) ++
   [OAdd (ex_node 16); ODelete (ex_node 3); OAdd (ex_node 16); ODeleteReplace (ex_node 5)].
 
-Definition dup_in_bucket (t : table) (i : nat) : bool :=
-  match nth_error (buckets t) i with
-  | Some b => negb (Nat.eqb (length (nodup N.eq_dec (map nid (entries b)))) (length (entries b)))
-  | None => false
-  end.
 
 Lemma witness_wf : Forall wf_op witness_ops.
 Proof.
